@@ -728,8 +728,7 @@ func (p *Parser) evaluateImports(ctx context) ([]Statement, error) {
 			// The top-level code of a file that is reached along several import paths must only run once.
 			if p.imported[absPath] {
 				importedStatements = slices.DeleteFunc(slices.Clone(importedStatements), func(stmt Statement) bool {
-					statementType := stmt.StatementType()
-					return statementType != STATEMENT_TYPE_VAR_DEFINITION && statementType != STATEMENT_TYPE_FUNCTION_DEFINITION
+					return stmt.StatementType() != STATEMENT_TYPE_FUNCTION_DEFINITION
 				})
 			}
 			p.imported[absPath] = true
